@@ -134,10 +134,10 @@ class Conn:
         if self.tr is not None:
             self.tr.reset(exc)
 
-    def send(self, frame):
+    def send(self, frame, info=None):
         """Server -> client: queue one response frame (delivery is an explorer decision)."""
         if not self.closed:
-            self.net.enqueue("resp", self, frame)
+            self.net.enqueue("resp", self, frame, info)
 
     def __repr__(self):
         return f"<Conn {self.label}>"
@@ -181,13 +181,18 @@ class Net:
         self.conns.append(conn)
         return conn
 
-    def enqueue(self, kind, conn, data):
+    def enqueue(self, kind, conn, data, info=None):
         self.seq += 1
-        info = self.world.server.describe(kind, conn, data)
-        self.pending.append(Event(self.seq, kind, conn, data, info))
+        if info is None:
+            info = self.world.server.describe(kind, conn, data)
+        ev = Event(self.seq, kind, conn, data, info)
+        self.pending.append(ev)
+        if kind == "req":
+            self.world.server.on_client_write(conn, data, ev)
 
     def conn_closed(self, conn):
         self.pending = [e for e in self.pending if e.conn is not conn]
+        self.world.log("conn-closed", conn.label)
         self.world.server.on_conn_closed(conn)
 
     def heads(self):
@@ -229,6 +234,7 @@ class Net:
         else:
             if not ev.conn.closed and ev.conn.tr is not None:
                 world.log("deliver-resp", ev.conn.label, ev.info)
+                world.server.on_response_delivered(ev.conn, ev.data)
                 ev.conn.tr.feed(struct.pack(">i", len(ev.data)) + ev.data)
 
 
